@@ -1,8 +1,10 @@
 /-
-  C17 helper lemmas, part 4: `fromList` on valid leak-free lists computes the property's
-  right-hand side; the same for wrapped lists; permutations.
+  C17 helper lemmas: `compileAll` compiles every rule on its own, so the matcher built by
+  `fromList` computes the property's right-hand side (`specMatch`) — whatever flags, anchors or
+  alternations the rules contain; construction succeeds exactly on lists of regular expressions
+  with an include rule; permutations.
 -/
-import FwdVerif.Lemmas.C17Sem
+import FwdVerif.Model.C17
 
 namespace FwdVerif
 namespace C17
@@ -16,40 +18,90 @@ theorem mem_includes {l : List Rule} {r : Rule} (h : r ∈ includes l) : r ∈ l
 theorem mem_excludes {l : List Rule} {r : Rule} (h : r ∈ excludes l) : r ∈ l := by
   simp [excludes] at h; exact h.1
 
-theorem any_standalone (rs : List Rule) (hv : ∀ r ∈ rs, validSrc r.src = true) (s : Bytes) :
-    (rs.map (·.src)).any (fun x => standalone x s) = rs.any (·.search s) := by
-  induction rs with
-  | nil => rfl
-  | cons r rest ih =>
-    simp only [List.map_cons, List.any_cons]
-    rw [ih (fun x hx => hv x (by simp [hx])), rule_search_eq r s (hv r (by simp))]
+/-! ### `compileAll` -/
 
-/-- the shape of a successful `fromList` and what it matches -/
-theorem fromList_spec {l : List Rule} {m : Matcher} (hv : Valid l) (hl : LeakFree l)
-    (h : fromList l = .ok m) (s : Bytes) :
+/-- the compiled slice answers, rule by rule, what the rules answer on their own -/
+theorem compileAll_search : ∀ (rs : List Rule) (xs : List Rx),
+    compileAll (rs.map (·.src)) = .ok xs → ∀ s, anySearch xs s = rs.any (·.search s)
+  | [], xs, h, s => by
+    simp only [List.map_nil, compileAll, Except.ok.injEq] at h
+    subst h; rfl
+  | r :: rest, xs, h, s => by
+    simp only [List.map_cons, compileAll] at h
+    cases hc : compile r.src with
+    | error e => simp [hc] at h
+    | ok x =>
+      cases hr : compileAll (rest.map (·.src)) with
+      | error e => simp [hc, hr] at h
+      | ok xs' =>
+        simp only [hc, hr, Except.ok.injEq] at h
+        subst h
+        have ih := compileAll_search rest xs' hr s
+        simp only [anySearch] at ih
+        simp [anySearch, Rule.search, hc, ih]
+
+/-- a slice of regular expressions always has its compiled form -/
+theorem compileAll_of_valid : ∀ (srcs : List Bytes), (∀ x ∈ srcs, validSrc x = true) →
+    ∃ xs, compileAll srcs = .ok xs
+  | [], _ => ⟨[], rfl⟩
+  | a :: rest, hv => by
+    obtain ⟨xs, hxs⟩ := compileAll_of_valid rest (fun x hx => hv x (by simp [hx]))
+    have ha := hv a (by simp)
+    unfold validSrc at ha
+    cases hc : compile a with
+    | error e => simp [hc] at ha
+    | ok x => exact ⟨x :: xs, by simp [compileAll, hc, hxs]⟩
+
+/-- … and only such a slice has one -/
+theorem valid_of_compileAll : ∀ (srcs : List Bytes) (xs : List Rx), compileAll srcs = .ok xs →
+    ∀ x ∈ srcs, validSrc x = true
+  | [], _, _ => by simp
+  | a :: rest, xs, h => by
+    simp only [compileAll] at h
+    cases hc : compile a with
+    | error e => simp [hc] at h
+    | ok y =>
+      cases hr : compileAll rest with
+      | error e => simp [hc, hr] at h
+      | ok ys =>
+        intro x hx
+        rcases List.mem_cons.mp hx with rfl | hx
+        · simp [validSrc, hc]
+        · exact valid_of_compileAll rest ys hr x hx
+
+theorem valid_srcs_includes {l : List Rule} (hv : Valid l) :
+    ∀ x ∈ (includes l).map (·.src), validSrc x = true := by
+  intro x hx
+  simp only [List.mem_map] at hx
+  obtain ⟨r, hr, rfl⟩ := hx
+  exact (hv r (mem_includes hr)).1
+
+theorem valid_srcs_excludes {l : List Rule} (hv : Valid l) :
+    ∀ x ∈ (excludes l).map (·.src), validSrc x = true := by
+  intro x hx
+  simp only [List.mem_map] at hx
+  obtain ⟨r, hr, rfl⟩ := hx
+  exact (hv r (mem_excludes hr)).1
+
+/-! ### `fromList` -/
+
+/-- the shape of a successful `fromList` and what it matches — no hypothesis on the rules -/
+theorem fromList_spec {l : List Rule} {m : Matcher} (h : fromList l = .ok m) (s : Bytes) :
     m.inverse = false ∧ m.matchRaw s = specMatch l s := by
-  have hvi : ∀ x ∈ (includes l).map (·.src), validSrc x = true ∧ x ≠ [] := by
-    intro x hx
-    simp only [List.mem_map] at hx
-    obtain ⟨r, hr, rfl⟩ := hx
-    exact hv r (mem_includes hr)
-  have hve : ∀ x ∈ (excludes l).map (·.src), validSrc x = true ∧ x ≠ [] := by
-    intro x hx
-    simp only [List.mem_map] at hx
-    obtain ⟨r, hr, rfl⟩ := hx
-    exact hv r (mem_excludes hr)
-  obtain ⟨hi1, hi2⟩ := build_spec _ hvi hl.1
-  obtain ⟨he1, he2⟩ := build_spec _ hve hl.2
   unfold fromList newMatcher at h
   split at h
   · cases h
-  · simp only [hi1, he1, Res.ok.injEq] at h
-    subst h
-    refine ⟨rfl, ?_⟩
-    simp only [Matcher.matchRaw, hi2, he2, specMatch]
-    rw [any_standalone _ (fun r hr => (hv r (mem_includes hr)).1),
-        any_standalone _ (fun r hr => (hv r (mem_excludes hr)).1)]
-    cases (excludes l).any (·.search s) <;> simp
+  · cases hi : compileAll ((includes l).map (·.src)) with
+    | error e => simp [hi] at h
+    | ok is =>
+      cases he : compileAll ((excludes l).map (·.src)) with
+      | error e => simp [hi, he] at h
+      | ok es =>
+        simp only [hi, he, Res.ok.injEq] at h
+        subst h
+        refine ⟨rfl, ?_⟩
+        simp only [Matcher.matchRaw, specMatch, compileAll_search _ _ hi s, compileAll_search _ _ he s]
+        cases (excludes l).any (·.search s) <;> simp
 
 theorem fromList_noInclude (l : List Rule) : fromList l = .noInclude ↔ includes l = [] := by
   unfold fromList newMatcher
@@ -61,76 +113,43 @@ theorem fromList_noInclude (l : List Rule) : fromList l = .noInclude ↔ include
   · intro h
     simp [h]
 
-theorem fromList_no_panic {l : List Rule} (hv : Valid l) (hl : LeakFree l) (e : Err) :
-    fromList l ≠ .panic e := by
-  have hvi : ∀ x ∈ (includes l).map (·.src), validSrc x = true ∧ x ≠ [] := by
-    intro x hx
-    simp only [List.mem_map] at hx
-    obtain ⟨r, hr, rfl⟩ := hx
-    exact hv r (mem_includes hr)
-  have hve : ∀ x ∈ (excludes l).map (·.src), validSrc x = true ∧ x ≠ [] := by
-    intro x hx
-    simp only [List.mem_map] at hx
-    obtain ⟨r, hr, rfl⟩ := hx
-    exact hv r (mem_excludes hr)
-  obtain ⟨hi1, _⟩ := build_spec _ hvi hl.1
-  obtain ⟨he1, _⟩ := build_spec _ hve hl.2
+theorem fromList_no_panic {l : List Rule} (hv : Valid l) (e : Err) : fromList l ≠ .panic e := by
+  obtain ⟨is, hi⟩ := compileAll_of_valid _ (valid_srcs_includes hv)
+  obtain ⟨es, he⟩ := compileAll_of_valid _ (valid_srcs_excludes hv)
   unfold fromList newMatcher
   split
   · intro h; cases h
-  · simp [hi1, he1]
+  · simp [hi, he]
 
-/-! ### wrapped lists -/
+/-- a valid list with an include rule always yields a matcher -/
+theorem fromList_ok_of_valid {l : List Rule} (hv : Valid l) (hne : includes l ≠ []) :
+    ∃ m, fromList l = .ok m := by
+  obtain ⟨is, hi⟩ := compileAll_of_valid _ (valid_srcs_includes hv)
+  obtain ⟨es, he⟩ := compileAll_of_valid _ (valid_srcs_excludes hv)
+  refine ⟨{ incl := is, excl := es }, ?_⟩
+  unfold fromList newMatcher
+  simp [hne, hi, he]
 
-theorem includes_wrapAll (l : List Rule) : includes (wrapAll l) = wrapAll (includes l) := by
-  simp [includes, wrapAll, List.filter_map, Function.comp_def]
-
-theorem excludes_wrapAll (l : List Rule) : excludes (wrapAll l) = wrapAll (excludes l) := by
-  simp [excludes, wrapAll, List.filter_map, Function.comp_def]
-
-theorem valid_wrapAll {l : List Rule} (hv : ∀ r ∈ l, validSrc r.src = true) : Valid (wrapAll l) := by
-  intro r hr
-  simp only [wrapAll, List.mem_map] at hr
-  obtain ⟨r0, hr0, rfl⟩ := hr
-  exact ⟨valid_wrap (hv r0 hr0), wrapSrc_ne_nil _⟩
-
-theorem neutral_wrapAll {l : List Rule} (hv : ∀ r ∈ l, validSrc r.src = true) : FlagNeutral (wrapAll l) := by
-  intro r hr
-  simp only [wrapAll, List.mem_map] at hr
-  obtain ⟨r0, hr0, rfl⟩ := hr
-  exact neutral_wrap (hv r0 hr0)
-
-theorem leakFree_of_flagNeutral {l : List Rule} (h : FlagNeutral l) : LeakFree l := by
-  constructor
-  · apply leakFree_of_neutral
-    intro x hx
-    simp only [List.mem_map] at hx
-    obtain ⟨r, hr, rfl⟩ := hx
-    exact h r (mem_includes hr)
-  · apply leakFree_of_neutral
-    intro x hx
-    simp only [List.mem_map] at hx
-    obtain ⟨r, hr, rfl⟩ := hx
-    exact h r (mem_excludes hr)
-
-theorem search_wrap (r : Rule) (hv : validSrc r.src = true) (s : Bytes) :
-    Rule.search { r with src := wrapSrc r.src } s = r.search s := by
-  rw [rule_search_eq _ s (valid_wrap hv), rule_search_eq r s hv]
-  exact standalone_wrap hv s
-
-theorem any_search_wrapAll (rs : List Rule) (hv : ∀ r ∈ rs, validSrc r.src = true) (s : Bytes) :
-    (wrapAll rs).any (·.search s) = rs.any (·.search s) := by
-  induction rs with
-  | nil => rfl
-  | cons r rest ih =>
-    simp only [wrapAll, List.map_cons, List.any_cons] at ih ⊢
-    rw [ih (fun x hx => hv x (by simp [hx])), search_wrap r (hv r (by simp))]
-
-theorem specMatch_wrapAll (l : List Rule) (hv : ∀ r ∈ l, validSrc r.src = true) (s : Bytes) :
-    specMatch (wrapAll l) s = specMatch l s := by
-  simp only [specMatch, includes_wrapAll, excludes_wrapAll]
-  rw [any_search_wrapAll _ (fun r hr => hv r (mem_includes hr)),
-      any_search_wrapAll _ (fun r hr => hv r (mem_excludes hr))]
+/-- a matcher is built only from lists all of whose rules are regular expressions -/
+theorem valid_of_fromList_ok {l : List Rule} {m : Matcher} (h : fromList l = .ok m) :
+    ∀ r ∈ l, validSrc r.src = true := by
+  unfold fromList newMatcher at h
+  split at h
+  · cases h
+  · cases hi : compileAll ((includes l).map (·.src)) with
+    | error e => simp [hi] at h
+    | ok is =>
+      cases he : compileAll ((excludes l).map (·.src)) with
+      | error e => simp [hi, he] at h
+      | ok es =>
+        intro r hr
+        cases hx : r.exclude with
+        | false =>
+          exact valid_of_compileAll _ _ hi r.src
+            (List.mem_map.mpr ⟨r, by simp [includes, hr, hx], rfl⟩)
+        | true =>
+          exact valid_of_compileAll _ _ he r.src
+            (List.mem_map.mpr ⟨r, by simp [excludes, hr, hx], rfl⟩)
 
 /-! ### permutations -/
 
@@ -145,6 +164,34 @@ theorem specMatch_perm {l l' : List Rule} (hp : l.Perm l') (s : Bytes) :
     rw [Bool.eq_iff_iff]; simp only [List.any_eq_true]
     exact ⟨fun ⟨x, hx, h⟩ => ⟨x, he.mem_iff.mp hx, h⟩, fun ⟨x, hx, h⟩ => ⟨x, he.mem_iff.mpr hx, h⟩⟩
   simp only [specMatch, h1, h2]
+
+/-- a permutation of a list that yields a matcher yields a matcher -/
+theorem fromList_ok_perm {l l' : List Rule} {m : Matcher} (hp : l.Perm l') (h : fromList l = .ok m) :
+    ∃ m', fromList l' = .ok m' := by
+  have hv := valid_of_fromList_ok h
+  have hv' : ∀ r ∈ l', validSrc r.src = true := fun r hr => hv r (hp.mem_iff.mpr hr)
+  have hne : includes l ≠ [] := by
+    intro hemp
+    rw [(fromList_noInclude l).mpr hemp] at h
+    cases h
+  have hne' : includes l' ≠ [] := by
+    intro hemp
+    have hperm : (includes l).Perm (includes l') := hp.filter _
+    rw [hemp] at hperm
+    exact hne hperm.eq_nil
+  obtain ⟨is, hi⟩ := compileAll_of_valid ((includes l').map (·.src)) (by
+    intro x hx
+    simp only [List.mem_map] at hx
+    obtain ⟨r, hr, rfl⟩ := hx
+    exact hv' r (mem_includes hr))
+  obtain ⟨es, he⟩ := compileAll_of_valid ((excludes l').map (·.src)) (by
+    intro x hx
+    simp only [List.mem_map] at hx
+    obtain ⟨r, hr, rfl⟩ := hx
+    exact hv' r (mem_excludes hr))
+  refine ⟨{ incl := is, excl := es }, ?_⟩
+  unfold fromList newMatcher
+  simp [hne', hi, he]
 
 end C17
 end FwdVerif
